@@ -10,7 +10,8 @@ from checks import parsecommon as pc
 import vlib
 
 PROOF_MODULES = []   # coq/Parse/*.v are compiled directly with coqc by parsecommon.build_coq (see ORDER there)
-OBLIGATIONS = []
+OBLIGATIONS = ["C16/P_print_add_perm.v", "C16/P_print_add_perm_wf.v", "C16/P_print_respects_eq_refuted.v",
+               "C16/P_parse_print_partial.v", "C16/P_nonvacuous.v"]
 
 SYMS = ["x", "y", "z", "t", "ab", "x1", "_u", "alpha", "X", "q_2", "_", "__a", "x_", "é", "πr", "zü9",
         "e1", "E_", "pix", "Inf", "true", "ee", "I2", "oo_"]
@@ -279,6 +280,14 @@ def classify(recipe, d=None):
         return "C16/roundtrip:nonfinite-double"
     if d is not None and has_float(recipe) and not nonfinite_in(d.get("D")) and nonfinite_in(d.get("RT", "").replace("(G ", "(")):
         return "C16/roundtrip:double-rounds-to-infinity"
+    if d is not None:
+        import re
+        m = re.match(r"^\(CD ([0-9a-f]{16}) ([0-9a-f]{16})\)$", d.get("D", ""))
+        if m:
+            zero = all(int(w, 16) & 0x7fffffffffffffff == 0 for w in m.groups())
+            return "C16/roundtrip:complex-double-zero" if zero else "C16/roundtrip:complex-double"
+        if re.match(r"^\(D [0-9a-f]{16}\)$", d.get("D", "")):
+            return "C16/roundtrip:double"
     if isinstance(t, list) and t and t[0] == "s":
         nm = t[1] if len(t) > 1 else ""
         if nm in CONST_NAMES:
